@@ -47,25 +47,58 @@ def _sl(st, v):
     raise X.Unsupported(f"not a list of str: {o.kind}")
 
 
+def _is_strlist(st, v):
+    if not isinstance(v, VRef):
+        return False
+    o = st.heap.get(v.ref)
+    return o is not None and (o.kind == "slist" or (o.kind == "list" and o.data is not None and all(isinstance(x, VStr) for x in o.data)))
+
+
 def acc(lc, hint=None, pick="inner"):
-    """The text accumulator of the loop: the parameter / local named `hint` if it is a str list, else the unique
-    local (not a parameter of the contract) that holds a list of str (the most recently created one when there
-    are several) -- so renaming the accumulator re-verifies."""
-    def is_strlist(v):
-        if not isinstance(v, VRef):
-            return False
-        o = lc.st.heap.get(v.ref)
-        return o is not None and (o.kind == "slist" or (o.kind == "list" and o.data is not None and all(isinstance(x, VStr) for x in o.data)))
+    """The text accumulator of the loop, identified by role, not by name: a str list visible in the innermost frame that
+    has one (a helper executed in place sees it through its own parameter); among several the most recently created one
+    is the innermost accumulator, the oldest the outermost.  `hint` (a name) is only tried first."""
+    st = lc.st
     if hint:
-        v = lc.st.lookup(hint)
-        if v is not None and is_strlist(v):
+        v = st.lookup(hint)
+        if v is not None and _is_strlist(st, v):
             return v
-    params = {p[0] for p in lc.ex.contract.params}
-    cands = {k: v for k, v in lc.st.frame.env.items() if k not in params and is_strlist(v)}
-    if not cands:
-        raise X.Unsupported("text accumulator not identified")
-    # several: the most recently created list is the innermost accumulator, the oldest the outermost
-    return (max if pick == "inner" else min)(cands.values(), key=lambda v: v.ref)
+    for fr in reversed(st.frames):
+        cands = {v.ref: v for v in fr.env.values() if _is_strlist(st, v)}
+        if cands:
+            return cands[(max if pick == "inner" else min)(cands)]
+    raise X.Unsupported("text accumulator not identified")
+
+
+class Sig:
+    """Parameter names of a real function, by position: contracts name *roles*; the actual names are read from the AST on
+    every run, so renaming a parameter does not detach the contract."""
+
+    def __init__(self, rel, qual, roles, drop_self=False):
+        from pyvc import loader
+        self.roles = list(roles)
+        self.name = {r: r for r in roles}
+        self.ok = False
+        try:
+            fn = loader.module(rel).functions.get(qual)
+        except OSError:
+            fn = None
+        if fn is not None:
+            a = fn.args
+            names = [x.arg for x in a.posonlyargs + a.args + a.kwonlyargs]
+            if len(names) == len(roles):
+                self.name = dict(zip(roles, names))
+                self.ok = True
+
+    def params(self, makers):
+        return [(self.name[r], makers[r]) for r in self.roles]
+
+    def __call__(self, ctx, role):
+        """Value of the role in a CallCtx (c.args) or a LoopCtx (current local)."""
+        n = self.name[role]
+        if hasattr(ctx, "args"):
+            return ctx.args[n]
+        return ctx[n]
 
 
 def cat_of(st, v):
@@ -133,44 +166,137 @@ define(ODF_KIDS, _odf_kids_def)
 define(ODF_ITEM, _odf_item_def, aux=True)
 
 ODF_KW = ["text_space_tag", "text_tab_tag", "text_line_break_tag", "attr_text_c"]
+ODF_ROLES = ODF_KW + ["skip_tags"]
 
 
-def odf_cfg(args):
-    sk = args["skip_tags"]
-    if isinstance(sk, VNoneT):
-        skt = EMPTYSET
-    elif isinstance(sk, X.VSetC):
-        skt = X.const_strset(sk.items) if sk.items else EMPTYSET
-    else:
-        skt = sk.t
-    return tuple(args[k].t for k in ODF_KW) + (skt,)
+def _set_term(v):
+    if isinstance(v, VNoneT):
+        return EMPTYSET
+    if isinstance(v, X.VSetC):
+        return X.const_strset(v.items) if v.items else EMPTYSET
+    return v.t
 
 
-def odf_contracts():
-    def inv(lc):
-        e = lc["element"].t
-        cfg = odf_cfg({k: lc[k] for k in ODF_KW + ["skip_tags"]})
-        old = z3.String("parts.cat")            # value at function entry (p_strlist names it)
-        return Conj([("parts==old+text+items-of-processed-children",
-                      cat_of(lc.st, acc(lc, "parts")) == cc(old, TEXT(e), ODF_KIDS(e, lc.i, *cfg)))])
+def odf_contracts(reg):
+    """`element_text` is the interface (its keyword names are what the four ODF extractors use).  The recursive helper it
+    delegates to is found by following the call; HOW the five configuration values travel (five keywords, a tuple-like
+    object, another order, other names) is read off that call: each component of the helper's arguments that carries one of
+    element_text's parameters gets that parameter's role in the specification."""
+    import ast
+    from pyvc import loader, verify
+    from pyvc.contracts import Registry
+    from pyvc.exctypes import Universe
+    mod = loader.module(SHARED)
+    et = mod.functions.get("element_text")
+    sig = Sig(SHARED, "element_text", ["element"] + ODF_ROLES)
 
-    append = FnContract(
-        target=f"{SHARED}::_append_element_text",
-        params=[("element", p_elem()), ("parts", p_strlist())] + [(k, p_str()) for k in ODF_KW] + [("skip_tags", p_strset())],
-        ensures=[("parts==old(parts)+odf_text(element)",
-                  lambda c: cat_of(c.st, c.args["parts"]) == cc(cat_of(c.entry, c.args["parts"]), ODF_TEXT(c.args["element"].t, *odf_cfg(c.args))))],
-        modifies=("parts",),
-        loops={0: LoopSpec(inv=inv, label="children")},
-        note="modular recursion through this contract; loop invariant over the processed prefix of a child list of symbolic length",
-    )
+    def et_cfg(c):
+        return tuple(sig(c, k).t for k in ODF_KW) + (_set_term(sig(c, "skip_tags")),)
+
     etext = FnContract(
         target=f"{SHARED}::element_text",
-        params=[("element", p_elem())] + [(k, p_str()) for k in ODF_KW] +
-               [("skip_tags", Maker(lambda ex, st, name: [(None, NONE)] + p_strset().make(ex, st, name), desc="Optional[set[str]]",
-                                    default=lambda ex, st: NONE))],
-        returns=lambda c: VStr(ODF_TEXT(c.args["element"].t, *odf_cfg(c.args))),
+        params=sig.params(dict({"element": p_elem(), "skip_tags": Maker(lambda ex, st, name: [(None, NONE)] + p_strset().make(ex, st, name),
+                                                                        desc="Optional[set[str]]", default=lambda ex, st: NONE)},
+                               **{k: p_str() for k in ODF_KW})),
+        returns=lambda c: VStr(ODF_TEXT(sig(c, "element").t, *et_cfg(c))),
         note="skip_tags None / empty == no skipped tags",
     )
+    if et is None:
+        return [etext]
+    callees = [n.func.id for n in ast.walk(et) if isinstance(n, ast.Call) and isinstance(n.func, ast.Name)
+               and n.func.id in mod.functions and n.func.id != "element_text"]
+    callees = [q for q in dict.fromkeys(callees) if any(isinstance(n, ast.Call) and isinstance(n.func, ast.Name) and n.func.id == q
+                                                        for n in ast.walk(mod.functions[q]))]          # the recursive walk
+    if len(callees) != 1:
+        return [etext]          # walk written inside element_text itself (or not recognisable): verified as one function / undecided
+    helper = callees[0]
+    hf = mod.functions[helper]
+    hp = [x.arg for x in hf.args.posonlyargs + hf.args.args + hf.args.kwonlyargs]
+
+    # ---- read the argument layout off the call in element_text (symbolic execution with a recording stand-in) ----
+    seen = []
+
+    def record(c):
+        seen.append((dict(c.args), c.st))
+        return z3.BoolVal(True)
+    reg0 = Registry()
+    X.install(reg0)
+    reg0.add(FnContract(target=f"{SHARED}::{helper}", params=[(n, Maker(lambda ex, st, nm: VUnk(nm), desc="any")) for n in hp], requires=record, assumed=True))
+    try:
+        ex0 = EXECUTOR(mod, reg0, Universe(loader.REPO))
+        ex0.contract = etext
+        ex0.oid_prefix = "C02/probe"
+        verify.generate(ex0, etext, mod, et)
+    except Exception:  # noqa  (layout not readable: the helper stays without contract -> undecided, never a wrong claim)
+        return [etext]
+    role_of = {z3.String(k).get_id(): k for k in ODF_KW}
+    layout = {}          # helper parameter -> "element" | "acc" | ("val", role) | ("obj", cls, {field: role})
+
+    def role(v):
+        if isinstance(v, VStr) and v.t.get_id() in role_of:
+            return role_of[v.t.get_id()]
+        if isinstance(v, (VExt, X.VSetC)) and (isinstance(v, X.VSetC) or v.sort == "StrSet"):
+            return "skip_tags"
+        return None
+    for args, st0 in seen[-1:]:
+        for n in hp:
+            v = args.get(n)
+            if isinstance(v, VExt) and v.sort == "Elem":
+                layout[n] = "element"
+            elif _is_strlist(st0, v):
+                layout[n] = "acc"
+            elif isinstance(v, VRef) and st0.obj(v.ref).kind == "obj":
+                o = st0.obj(v.ref)
+                layout[n] = ("obj", o.cls, {f: role(x) for f, x in o.data.items()})
+            else:
+                layout[n] = ("val", role(v))
+    roles_found = [l[1] for l in layout.values() if isinstance(l, tuple) and l[0] == "val"] + \
+                  [r for l in layout.values() if isinstance(l, tuple) and l[0] == "obj" for r in l[2].values()]
+    if sorted(r for r in roles_found if r) != sorted(ODF_ROLES) or list(layout.values()).count("element") != 1 or list(layout.values()).count("acc") != 1:
+        return [etext]
+    e_name = next(n for n, l in layout.items() if l == "element")
+    a_name = next(n for n, l in layout.items() if l == "acc")
+
+    def cfg(get, st):
+        """The five configuration terms, in role order, from the helper's own arguments / locals."""
+        found = {}
+        for n, l in layout.items():
+            if isinstance(l, tuple) and l[0] == "val" and l[1]:
+                found[l[1]] = get(n)
+            elif isinstance(l, tuple) and l[0] == "obj":
+                d = st.obj(get(n).ref).data
+                for f, r in l[2].items():
+                    if r:
+                        found[r] = d[f]
+        return tuple(found[k].t for k in ODF_KW) + (_set_term(found["skip_tags"]),)
+
+    def maker(l):
+        if l == "element":
+            return p_elem()
+        if l == "acc":
+            return p_strlist()
+        if l[0] == "val":
+            return p_strset() if l[1] == "skip_tags" else (p_str() if l[1] else Maker(lambda ex, st, nm: VUnk(nm), desc="any"))
+        return p_obj(l[1], {f: (p_strset() if r == "skip_tags" else p_str()) for f, r in l[2].items()})
+
+    def inv(lc):
+        e = lc[e_name].t
+        old = z3.String(f"{a_name}.cat")            # value at function entry (p_strlist names it)
+        return Conj([("parts==old+text+items-of-processed-children",
+                      cat_of(lc.st, acc(lc, a_name)) == cc(old, TEXT(e), ODF_KIDS(e, lc.i, *cfg(lambda n: lc[n], lc.st))))])
+
+    append = FnContract(
+        target=f"{SHARED}::{helper}",
+        params=[(n, maker(layout[n])) for n in hp],
+        ensures=[("parts==old(parts)+odf_text(element)",
+                  X.robust(lambda c: cat_of(c.st, c.args[a_name]) == cc(cat_of(c.entry, c.args[a_name]),
+                                                                        ODF_TEXT(c.args[e_name].t, *cfg(lambda n: c.args[n], c.entry))))),],
+        modifies=(a_name,),
+        note="modular recursion through this contract; loop invariant over the processed prefix of a child list of symbolic length",
+    )
+    append.loop_match = lambda ex, st, node, it: (LoopSpec(inv=inv, label="children")
+                                                  if isinstance(it, VExt) and it.sort == "Elem" and st.lookup(e_name) is not None
+                                                  and it.t.eq(st.lookup(e_name).t) else None)
     return [append, etext]
 
 
@@ -853,8 +979,9 @@ def rtf_contracts():
 
 def contracts(reg):
     X.install(reg)
+    X.register_untrusted()
     out = []
-    out += odf_contracts()
+    out += odf_contracts(reg)
     out += docx_contracts()
     out += dt_contracts(reg)
     out += html_contracts(reg)
